@@ -3,6 +3,7 @@ package jsonschema
 
 import (
 	"errors"
+	"reflect"
 	"regexp"
 	"slices"
 
@@ -428,8 +429,12 @@ func (ctx *fromJSONSchemaContext) convertObject(s *lib.Schema) (core.ZodSchema, 
 			}
 			return types.Record(types.String(), valueSchema), nil
 		}
-		// Empty object with no constraints
-		return types.Object(core.ObjectSchema{}), nil
+		// No properties and no additionalProperties: only `required` constrains the object.
+		shape := make(core.ObjectSchema, len(s.Required))
+		for _, req := range s.Required {
+			shape[req] = types.Unknown()
+		}
+		return types.Object(shape), nil
 	}
 
 	// Build object shape
@@ -458,6 +463,13 @@ func (ctx *fromJSONSchemaContext) convertObject(s *lib.Schema) (core.ZodSchema, 
 		shape[key] = propZodSchema
 	}
 
+	// A required name without a properties entry must still be present (any value).
+	for _, req := range s.Required {
+		if _, ok := shape[req]; !ok {
+			shape[req] = types.Unknown()
+		}
+	}
+
 	result := types.Object(shape)
 
 	// Handle additionalProperties
@@ -469,7 +481,8 @@ func (ctx *fromJSONSchemaContext) convertObject(s *lib.Schema) (core.ZodSchema, 
 			// It's a schema - use catchall
 			catchallSchema, err := ctx.convert(s.AdditionalProperties)
 			if err == nil {
-				result = result.WithCatchall(catchallSchema)
+				// The catch-all is only consulted in passthrough mode.
+				result = result.Passthrough().WithCatchall(catchallSchema)
 			}
 		}
 		// If true, default passthrough behavior
@@ -498,7 +511,12 @@ func makeOptional(schema core.ZodSchema) core.ZodSchema {
 	case *types.ZodObject[map[string]any, map[string]any]:
 		return s.Optional()
 	default:
-		// For unknown types, return as-is
+		// Every schema type has an Optional() method; call it by name.
+		if m := reflect.ValueOf(schema).MethodByName("Optional"); m.IsValid() && m.Type().NumIn() == 0 && m.Type().NumOut() == 1 {
+			if opt, ok := m.Call(nil)[0].Interface().(core.ZodSchema); ok {
+				return opt
+			}
+		}
 		return schema
 	}
 }
